@@ -121,12 +121,27 @@ func (x *c10) compareRange(where string, sa, sb stypes.KVStore, m kv.Model, r c1
 			return
 		}
 	}
-	if r.start != nil && r.end == nil && kv.EqualPairs(stripped, m.Range(nil, r.start, r.rev)) {
-		x.c.Violation("C10/iterate/start-only-range-served-as-end-only", "%s: cache on returns the keys BELOW start %s; cache off: %s", desc, kv.Render(stripped), kv.Render(gb))
-		return
+	// The manifestations compose: a start-only range is first turned into an end-only range, and a reverse
+	// range whose (effective) end is a present key then yields nothing.
+	swapped := r.start != nil && r.end == nil
+	effEnd := r.end
+	if swapped {
+		effEnd = r.start
 	}
-	if _, endPresent := m[string(r.end)]; r.rev && r.end != nil && endPresent && len(stripped) == 0 {
-		x.c.Violation("C10/reverse-iterate/end-equal-to-present-key-yields-nothing", "%s: end is a present key; cache on returns nothing, cache off: %s", desc, kv.Render(gb))
+	_, effEndPresent := m[string(effEnd)]
+	const sigSwap = "C10/iterate/start-only-range-served-as-end-only"
+	const sigEnd = "C10/reverse-iterate/end-equal-to-present-key-yields-nothing"
+	switch {
+	case swapped && kv.EqualPairs(stripped, m.Range(nil, r.start, r.rev)):
+		x.c.Violation(sigSwap, "%s: cache on returns the keys BELOW start %s; cache off: %s", desc, kv.Render(stripped), kv.Render(gb))
+		return
+	case !swapped && r.rev && effEnd != nil && effEndPresent && len(stripped) == 0:
+		x.c.Violation(sigEnd, "%s: end is a present key; cache on returns nothing, cache off: %s", desc, kv.Render(gb))
+		return
+	case swapped && r.rev && effEndPresent && len(stripped) == 0:
+		if x.c.Violation(sigSwap, "%s: start-only range served as [nil,start) (and then empty because start is a present key); cache on %s, cache off %s", desc, kv.Render(stripped), kv.Render(gb)) {
+			x.c.Violation(sigEnd, "%s: start-only range served as [nil,start) whose end is a present key; cache on returns nothing, cache off: %s", desc, kv.Render(gb))
+		}
 		return
 	}
 	x.c.Violation("C10/"+site+"/listing-differs-with-cache-on", "%s: cache on %s, cache off %s", desc, kv.Render(ga), kv.Render(gb))
